@@ -142,7 +142,7 @@ fn case(rng: &mut Rng, rec: &mut Rec) {
     }
     // a chunked coding on the original request: a caller-added content-length must still be sent
     // (C17 accepts a request carrying both; the coding decides the framing)
-    let orig_chunked = needs_body(method) && !orig_has_cl && depth == 0 && rng.chance(1, 3);
+    let orig_chunked = needs_body(method) && !orig_has_cl && rng.chance(1, 3);
     if orig_chunked {
         cfg.orig.push(("transfer-encoding".into(), b"chunked".to_vec()));
         rec.cov("original-chunked");
